@@ -129,7 +129,9 @@ def run_xh(prop, jobs, tier, out=None, verbose=True, max_rounds=6):
     for idx, job in enumerate(jobs):
         r, tw = results[idx], results[n + idx]
         _acc(out, r)
+        cp = out.stats["confirmed_paths"]
         _acc(out, tw)
+        out.stats["confirmed_paths"] = cp  # paths of the vacuity twins are not counted as non-trivial cases
         row = {"job": job.label(), "verdict": r["verdict"], "paths": r.get("paths"), "wall_s": r.get("wall"),
                "solver_calls": r.get("solver_calls"), "twin": tw["verdict"]}
         out.job_table.append(row)
@@ -219,8 +221,12 @@ def write_evidence(out, meta, wall, seed):
         "obligations": out.obligations,
         "discharged": out.discharged,
         "exhaustive": False,
-        "rule": meta.get("rule", "one obligation = one harness function with fixed shape parameters; discharged only "
-                                 "if CrossHair exhausted the path tree with every path satisfying the post-condition"),
+        "rule": meta.get("rule", "a case = one execution path explored by the symbolic executor (a distinct sequence of "
+                                 "solver-decided branch outcomes, hence distinct by construction); evaluations = all paths incl. "
+                                 "vacuity twins; non-trivial = a path of a main job that reached the end of the harness and whose "
+                                 "post-condition z3 confirmed (paths cut by a precondition/assumption are not counted). One "
+                                 "obligation = one harness function with fixed shape parameters, discharged only if the path tree "
+                                 "was exhausted with every path confirmed"),
         "samples": out.samples[:8] or [{"note": "no reachability witness captured"}],
         "evaluations": out.stats["paths"],
         "distinct_nontrivial": out.stats["confirmed_paths"],
